@@ -25,6 +25,8 @@ What is proved here
 * `readonly_ops_write_nothing`, `readonly_ops_keep_cache_coherent` — read-only calls (failed or
   not) issue no device write, leave the medium as it was and keep the cache coherent with it: a
   retry sees the same medium and never a scribbled buffer.
+* `cache_coherent_after_any_call`, `writeBack_fail_tag` — with the repaired `BlockCache::write_back` (a failed
+  device write clears the tag) EVERY call, mutating or not, failed or not, keeps the cache coherent.
 
 Not proved here (checked by the fault-injection oracle of the harness instead): that the retried
 read-only call returns the fault-free answer (needs cache transparency of every reading
@@ -32,6 +34,7 @@ function), absence of duplicate names after a failed creating call and intactnes
 files on the medium (these are C10/C03-style statements about the order of writes).
 -/
 import Sdmmc.Lemmas.Fault
+import Sdmmc.Lemmas.FaultCohApi
 
 namespace Sdmmc.Props.C11
 open Sdmmc.Model Sdmmc.Model.Fat Sdmmc.Lemmas.Fault
@@ -84,6 +87,28 @@ theorem cacheRead_fail_tag (idx : Nat) (s : FS) (e : Err) (h : (cacheRead idx s)
 theorem cacheRead_ok_tag (idx : Nat) (s : FS) (h : (cacheRead idx s).1 = .ok ()) :
     (cacheRead idx s).2.cache.tag = some idx :=
   Lemmas.Fault.cacheRead_ok_tag idx s h
+
+/-- After a failing write-back the cache tag is `none` as well (the repaired `BlockCache::write_back` /
+`write_back_with_duplicate` forget the block when a device write fails): the block that did not reach the medium
+is never served again. -/
+theorem writeBack_fail_tag (s : FS) (e : Err) :
+    ((writeBack s).1 = .err e → (writeBack s).2.cache.tag = none) ∧
+    (∀ dup, (writeBackWithDuplicate dup s).1 = .err e → (writeBackWithDuplicate dup s).2.cache.tag = none) := by
+  refine ⟨fun h => ?_, fun dup h => ?_⟩
+  · cases ht : s.cache.tag with
+    | none => rw [Lemmas.Fault.writeBack_none ht] at h; cases h
+    | some idx =>
+      rcases Lemmas.Fault.devWrite_result idx s with hr | hr
+      · rw [Lemmas.Fault.writeBack_ok ht hr, hr] at h; cases h
+      · rw [Lemmas.Fault.writeBack_fail ht hr]
+  · cases ht : s.cache.tag with
+    | none => rw [Lemmas.Fault.writeBackDup_none dup ht] at h; cases h
+    | some idx =>
+      rcases Lemmas.Fault.devWrite_result idx s with hr | hr
+      · rcases Lemmas.Fault.devWrite_result dup (devWrite idx s).2 with hr2 | hr2
+        · rw [Lemmas.Fault.writeBackDup_ok_ok dup ht hr hr2, hr2] at h; cases h
+        · rw [Lemmas.Fault.writeBackDup_ok_fail dup ht hr hr2]
+      · rw [Lemmas.Fault.writeBackDup_fail dup ht hr]
 
 /-! ### The compositional rules -/
 
@@ -276,6 +301,13 @@ failing device read scribbled into the buffer is never tagged, hence never serve
 theorem readonly_ops_keep_cache_coherent (s : Mgr) (op : Op) (h : readOnlyOp op = true) (hc : MCoh s) :
     MCoh (step s op).1 :=
   step_readonly_coherent s op h hc
+
+/-- **After ANY call — all 24 operations, failed or not, under any fault schedule — the cache is coherent with the
+medium** if it was before: a tagged buffer holds what the medium holds at that block.  (A failed device read clears
+the tag before the device is called; a failed write-back clears it afterwards; between the two, inside one engine
+function, the buffer is modified but every engine function writes it back — or drops it — before it returns.) -/
+theorem cache_coherent_after_any_call (s : Mgr) (op : Op) (hc : MCoh s) : MCoh (step s op).1 :=
+  Lemmas.FaultCoh.step_coherent s op hc
 
 /-! ### Non-vacuity: a concrete state in which the faults fire -/
 
